@@ -12,6 +12,8 @@ RULE = ("requests `gen <definition> - <opts> 0 (<packet>)` and `rbytes/rint` wit
 ASSUMPTIONS = ["warnings are classified by a fixed substring of their message"]
 MODEL_IS_SPEC = False
 
+responses_agree = genutil.same_events
+
 
 def is_trivial(line, mo):
     return mo in ("events", "err value") and not line.startswith("r")
@@ -103,6 +105,8 @@ def oracle(line, out):
     w = widths(t[1])
     if w.get("__shared__"):
         return None
+    if "W:?" in out:
+        return None          # a warning whose wording is not recognised (the model comparison decides)
     evs = genutil.split_events(out)
     prev_warn = False
     for ev in evs:
